@@ -1,10 +1,50 @@
-"""Symbolic heap: references, per-field arrays, heap lists, frames.  (Phase 1: stubs that keep
-heap-free functions working; the real model is in heap_model.py and replaces this class.)"""
+"""Symbolic heap of the pvc engine: references, per-field arrays, heap lists, allocation, frames.
+
+  refs          z3 Int; 0 is None; sentinels (linebreak, empty_line, comma) are the fixed refs 1..3
+  tag(ref)      immutable uninterpreted function giving the class id
+  fields        one z3 Array(Int -> sort) per field name (specs/heap_schema.py)
+  lists         heap objects with `$len` : Array(Int, Int) and `$elem` : Array(Int, Array(Int, Int))
+  allocation    `$alloc` : Int; every reference read from the heap is < $alloc (instantiated at reads)
+  `==` on refs  uninterpreted equivalence pyeq with  a is b  =>  a == b   (identity never inferred from ==)
+  frames        every write is checked against the contract's `modifies` (or the object is fresh)
+"""
 from __future__ import annotations
+
+import ast
 
 import z3
 
-from .source import OutOfSubset
+from . import types as ty
+from .source import OutOfSubset, load_module, strip_docstring
+from .values import (V, VBool, VBound, VClosure, VInt, VMatch, VNone, VObj, VOpaque, VPy, VRec, VRef, VSeq, VStr,
+                     VStrJoin, VTuple)
+
+I = z3.IntVal
+
+TAG = z3.Function("tag", z3.IntSort(), z3.IntSort())
+PYEQ = z3.Function("pyeq", z3.IntSort(), z3.IntSort(), z3.BoolSort())
+IDOF = z3.Function("id_of", z3.IntSort(), z3.IntSort())
+
+
+def schema():
+    from specs import heap_schema as S
+
+    return S
+
+
+def field_sort(kind):
+    if kind == "ref" or kind == "int":
+        return z3.IntSort()
+    if kind == "str":
+        return z3.StringSort()
+    if kind == "bool":
+        return z3.BoolSort()
+    if kind.startswith("seq:"):
+        return z3.SeqSort(ty.kind_sort(kind[4:]))
+    raise KeyError(kind)
+
+
+ELEM_SORT = z3.ArraySort(z3.IntSort(), z3.IntSort())
 
 
 class HeapOps:
@@ -12,31 +52,638 @@ class HeapOps:
         self.ev = ev
         self.path = ev.path
         self.ctx = ev.ctx
+        self.S = schema()
 
+    # ------------------------------------------------------------------ basics
     def _no(self, node, what):
         raise OutOfSubset(f"{self.ev.fn_name}:{getattr(node, 'lineno', '?')}", "heap: " + what)
 
+    @property
+    def h(self):
+        return self.path.heap
+
     def init_path(self):
-        pass
+        p = self.path
+        if p.heap:
+            return
+        for f, kind in self.S.FIELDS.items():
+            p.heap[f] = z3.Const(f"H.{f}@0", z3.ArraySort(z3.IntSort(), field_sort(kind)))
+        p.heap["$len"] = z3.Const("H.len@0", z3.ArraySort(z3.IntSort(), z3.IntSort()))
+        p.heap["$elem"] = z3.Const("H.elem@0", z3.ArraySort(z3.IntSort(), ELEM_SORT))
+        alloc = z3.Const("alloc@0", z3.IntSort())
+        p.heap["$alloc"] = alloc
+        p.assume(alloc > 16, check=False)
+        p.__dict__["alloc0"] = alloc
+        p.__dict__["globals"] = {}
+        for name, r in (("linebreak", 1), ("empty_line", 2), ("comma", 3)):
+            p.add_axiom(TAG(I(r)) == self.S.CLASSES["sentinel"])
+        p.add_axiom(TAG(I(0)) == self.S.CLASSES["NoneType"])
 
     def assume_wellformed_entry(self, env):
         pass
 
-    def havoc_for_loop(self, lc, env, tag):
-        pass
+    def tag_in(self, ref_t, cls):
+        ids = self.S.class_ids(cls)
+        if not ids:
+            self._no(None, f"unknown class {cls}")
+        return z3.Or(*[TAG(ref_t) == I(i) for i in ids])
 
+    def fresh_ref(self, base, cls=None, maybe_none=False):
+        p = self.path
+        self.init_path()
+        r = p.fresh(base, z3.IntSort())
+        lo = r >= 0 if maybe_none else r > 3 if cls not in ("sentinel",) else r > 0
+        p.assume(z3.And(lo, r < self.h["$alloc"]), check=False)
+        if cls and cls != "object":
+            t = self.tag_in(r, cls)
+            p.assume(z3.Implies(r != 0, t) if maybe_none else t, check=False)
+            if cls in ("list", "Scope"):
+                p.assume(self.h["$len"][r] >= 0, check=False)
+        return VRef(r, cls)
+
+    def typed_read(self, ref_t, field, val_t):
+        """Assumed type invariants of dataclass fields + heap closure, instantiated at the read."""
+        p = self.path
+        kind = self.S.FIELDS[field]
+        if kind != "ref":
+            return
+        p.assume(z3.And(val_t >= 0, val_t < self.h["$alloc"]), check=False)
+        if field in self.S.LIST_FIELDS:
+            cls = self.S.LIST_FIELDS[field]
+            p.assume(z3.And(val_t > 3, self.tag_in(val_t, cls), self.h["$len"][val_t] >= 0), check=False)
+        elif field in self.S.OBJECT_FIELDS:
+            p.assume(z3.And(val_t > 3, self.tag_in(val_t, self.S.OBJECT_FIELDS[field])), check=False)
+
+    def is_list_tag(self, t):
+        return self.tag_in(t, "list")
+
+    def truth(self, v: VRef):
+        return z3.If(self.is_list_tag(v.t), self.h["$len"][v.t] > 0, v.t != 0)
+
+    def pyeq(self, a: VRef, b: VRef):
+        # sentinels / None / lists compare by identity (no __eq__ override that matters here)
+        self.path.add_axiom(z3.Implies(a.t == b.t, PYEQ(a.t, b.t)))
+        self.path.add_axiom(PYEQ(a.t, b.t) == PYEQ(b.t, a.t))
+        for x, y in ((a, b), (b, a)):
+            self.path.add_axiom(z3.Implies(z3.And(x.t >= 0, x.t <= 3), PYEQ(x.t, y.t) == (x.t == y.t)))
+        return PYEQ(a.t, b.t)
+
+    def isinstance(self, v: VRef, names):
+        terms = []
+        for n in names:
+            n = n.split(".")[-1]
+            if n in ("str", "int", "bool", "float", "dict", "tuple", "bytes"):
+                if n == "dict":
+                    terms.append(self.tag_in(v.t, "dict"))
+                elif n == "tuple":
+                    terms.append(self.tag_in(v.t, "tuple"))
+                else:
+                    terms.append(z3.BoolVal(False))
+                continue
+            if n not in self.S.CLASSES and n not in self.S.SUBCLASSES:
+                self._no(None, f"isinstance against unknown class {n}")
+            terms.append(self.tag_in(v.t, n))
+        return z3.And(v.t != 0, z3.Or(*terms))
+
+    # ------------------------------------------------------------------ fields
+    def getattr(self, base: VRef, attr: str, node=None):
+        self.init_path()
+        if attr in self.S.FIELDS:
+            if not self.ev.pure:
+                self.ctx.oblige(self.path, "attr-of-none", f"L{getattr(node, 'lineno', 0)}:.{attr}", base.t != 0, node)
+                self.path.assume(base.t != 0, check=False)
+            t = self.h[attr][base.t]
+            kind = self.S.FIELDS[attr]
+            self.typed_read(base.t, attr, t)
+            if kind == "ref":
+                cls = self.S.LIST_FIELDS.get(attr) or self.S.OBJECT_FIELDS.get(attr)
+                return VRef(t, cls)
+            if kind == "str":
+                return VStr(t)
+            if kind == "bool":
+                return VBool(t)
+            if kind == "int":
+                return VInt(t)
+            if kind.startswith("seq:"):
+                return VSeq(t, kind[4:])
+        return VBound(base, attr)
+
+    def check_write(self, ref_t, field, node):
+        """Frame obligation: the written location is in `modifies` or the object is fresh."""
+        if self.ev.pure:
+            return
+        allowed = [ref_t >= self.path.alloc0]
+        for (r, f) in self.frame_locations():
+            if f == field or f == "*":
+                allowed.append(ref_t == r)
+        lab = f"L{getattr(node, 'lineno', 0)}:write .{field}"
+        self.ctx.oblige(self.path, "frame", lab, z3.Or(*allowed), node)
+
+    def frame_locations(self):
+        cache = self.path.__dict__.get("_frame")
+        if cache is not None:
+            return cache
+        locs = self.eval_locations(self.ctx.contract.modifies, self.ev.entry_env, self.ev.old_heap)
+        self.path.__dict__["_frame"] = locs
+        return locs
+
+    def eval_locations(self, modifies, env, heap):
+        """['x.f', 'x.values[]', 'x.*'] -> [(ref term, field | '$list' | '*')] evaluated in `heap`."""
+        locs = []
+        if not modifies:
+            return locs
+        saved = self.path.heap
+        sub = self.ev.pure_eval()
+        try:
+            if heap is not None:
+                self.path.heap = dict(heap)
+            for m in modifies:
+                m = m.strip()
+                if m.endswith("[]"):
+                    v = sub.ev(ast.parse(m[:-2], mode="eval").body, env)
+                    if isinstance(v, VRef):
+                        locs.append((v.t, "$list"))
+                    continue
+                base, _, field = m.rpartition(".")
+                v = sub.ev(ast.parse(base, mode="eval").body, env)
+                if isinstance(v, VRef):
+                    locs.append((v.t, field))
+        finally:
+            self.path.heap = saved
+        return locs
+
+    def setattr(self, base: VRef, attr, value, node=None):
+        self.init_path()
+        if attr not in self.S.FIELDS:
+            self._no(node, f"assignment to unknown field {attr}")
+        if not self.ev.pure:
+            self.ctx.oblige(self.path, "attr-of-none", f"L{getattr(node, 'lineno', 0)}:.{attr}=", base.t != 0, node)
+            self.path.assume(base.t != 0, check=False)
+        self.check_write(base.t, attr, node)
+        self.h[attr] = z3.Store(self.h[attr], base.t, self.to_field(attr, value, node))
+
+    def to_field(self, attr, value, node=None):
+        kind = self.S.FIELDS[attr]
+        value = self.ev.lift(value)
+        if kind == "ref":
+            return self.as_ref(value, node).t
+        if kind == "str" and isinstance(value, VStr):
+            return value.t
+        if kind == "bool" and isinstance(value, VBool):
+            return value.t
+        if kind == "int" and isinstance(value, VInt):
+            return value.t
+        if kind.startswith("seq:") and isinstance(value, VSeq):
+            return value.t
+        if kind.startswith("seq:") and isinstance(value, VTuple):
+            return self.ev.list_from_items(value.items, node).t if value.items else z3.Empty(field_sort(kind))
+        self._no(node, f"value of shape {type(value).__name__} stored in field {attr}:{kind}")
+
+    def as_ref(self, value, node=None) -> VRef:
+        """Values stored into ref-sorted places: None, refs, or boxed python values."""
+        if isinstance(value, VRef):
+            return value
+        if isinstance(value, VNone):
+            return VRef(I(0), "NoneType")
+        if isinstance(value, VPy) and value.obj == ("emptylist",):
+            return self.new_list([])
+        if isinstance(value, (VStr, VInt, VBool, VSeq, VTuple, VOpaque, VStrJoin)):
+            # boxed python value: a fresh opaque heap object (its payload is not modelled)
+            r = self.alloc("pyvalue")
+            return r
+        self._no(node, f"cannot store {type(value).__name__} as a reference")
+
+    # ------------------------------------------------------------------ allocation
+    def alloc(self, cls):
+        self.init_path()
+        r = self.h["$alloc"]
+        self.h["$alloc"] = r + 1
+        self.path.assume(TAG(r) == I(self.S.CLASSES[cls]), check=False)
+        return VRef(r, cls)
+
+    def new_list(self, items, cls="list"):
+        r = self.alloc(cls)
+        arr = z3.K(z3.IntSort(), I(0))
+        for i, it in enumerate(items):
+            arr = z3.Store(arr, I(i), self.as_ref(self.ev.lift(it)).t)
+        self.h["$elem"] = z3.Store(self.h["$elem"], r.t, arr)
+        self.h["$len"] = z3.Store(self.h["$len"], r.t, I(len(items)))
+        return r
+
+    # ------------------------------------------------------------------ lists
+    def llen(self, l):
+        return self.h["$len"][l.t]
+
+    def len(self, l, node=None):
+        return VInt(self.llen(l))
+
+    def elem_read(self, l, idx_t):
+        t = self.h["$elem"][l.t][idx_t]
+        self.path.assume(z3.And(t >= 0, t < self.h["$alloc"]), check=False)
+        return VRef(t, None)
+
+    def subscript(self, base: VRef, idx, node=None):
+        idx = self.ev.lift(idx)
+        if isinstance(idx, VStr):
+            return self.dict_get(base, idx, node)
+        if not isinstance(idx, VInt):
+            self._no(node, "list index of non-int")
+        n = self.llen(base)
+        s = z3.simplify(idx.t)
+        if self.ev.pure and not (z3.is_int_value(s) and s.as_long() < 0):
+            return self.elem_read(base, s)
+        if z3.is_int_value(s) and s.as_long() < 0:
+            pos, ok = n + s, n >= -s.as_long()
+        else:
+            pos, ok = z3.If(idx.t < 0, idx.t + n, idx.t), z3.And(idx.t < n, idx.t >= -n)
+            if z3.is_int_value(s) or self.path.entails_quick(idx.t >= 0):
+                pos, ok = idx.t, idx.t < n
+        if not self.ev.pure:
+            self.ctx.oblige(self.path, "index-bounds", f"L{getattr(node, 'lineno', 0)}:{ast.unparse(node) if node is not None else ''}", ok, node)
+            self.path.assume(ok, check=False)
+        return self.elem_read(base, pos)
+
+    def write_list(self, l, new_elems, new_len, node, what):
+        self.check_write(l.t, "$list", node)
+        self.h["$elem"] = z3.Store(self.h["$elem"], l.t, new_elems)
+        self.h["$len"] = z3.Store(self.h["$len"], l.t, new_len)
+
+    def append(self, l, item, node):
+        n = self.llen(l)
+        arr = self.h["$elem"][l.t]
+        self.write_list(l, z3.Store(arr, n, self.as_ref(self.ev.lift(item), node).t), n + 1, node, "append")
+
+    def fresh_elems(self, base):
+        return self.path.fresh(base, ELEM_SORT)
+
+    def delete_at(self, l, idx_t, node):
+        """del l[i]: elements after i shift left by one."""
+        n = self.llen(l)
+        old = self.h["$elem"][l.t]
+        new = self.fresh_elems("del")
+        j = z3.Const("j!del", z3.IntSort())
+        self.path.assume(z3.ForAll([j], z3.And(z3.Implies(z3.And(j >= 0, j < idx_t), new[j] == old[j]),
+                                               z3.Implies(j >= idx_t, new[j] == old[j + 1])), patterns=[new[j]]), check=False)
+        self.write_list(l, new, n - 1, node, "del")
+
+    def delitem(self, base: VRef, idx, node, env):
+        idx = self.ev.lift(idx)
+        if isinstance(idx, VStr):
+            return self.dunder(base, "__delitem__", [idx], {}, node, env)
+        if not isinstance(idx, VInt):
+            self._no(node, "del with non-int index")
+        # static dispatch: a str key reaches the mapping dunder, an int reaches list deletion
+        n = self.llen(base)
+        ok = z3.And(idx.t >= 0, idx.t < n)
+        self.ctx.oblige(self.path, "index-bounds", f"L{getattr(node, 'lineno', 0)}:del [{ast.unparse(node.targets[0].slice) if hasattr(node, 'targets') else ''}]", ok, node)
+        self.path.assume(ok, check=False)
+        self.delete_at(base, idx.t, node)
+
+    def setitem(self, base: VRef, idx, value, node, env):
+        idx = self.ev.lift(idx)
+        if isinstance(idx, VStr):
+            return self.dunder(base, "__setitem__", [idx, value], {}, node, env)
+        if isinstance(idx, VInt):
+            n = self.llen(base)
+            ok = z3.And(idx.t >= 0, idx.t < n)
+            self.ctx.oblige(self.path, "index-bounds", f"L{getattr(node, 'lineno', 0)}:[..]=", ok, node)
+            self.path.assume(ok, check=False)
+            arr = self.h["$elem"][base.t]
+            self.write_list(base, z3.Store(arr, idx.t, self.as_ref(self.ev.lift(value), node).t), n, node, "setitem")
+            return
+        self._no(node, "item assignment")
+
+    def list_contains(self, l, item, node=None):
+        item = self.as_ref(self.ev.lift(item), node)
+        j = self.path.fresh("j", z3.IntSort())
+        x = self.h["$elem"][l.t][j]
+        self.path.add_axiom(z3.Implies(x == item.t, PYEQ(x, item.t)))
+        return z3.Exists([j], z3.And(j >= 0, j < self.llen(l), PYEQ(self.h["$elem"][l.t][j], item.t)))
+
+    def list_copy(self, l, node=None, as_tuple=False):
+        r = self.alloc("list")
+        self.h["$elem"] = z3.Store(self.h["$elem"], r.t, self.h["$elem"][l.t])
+        self.h["$len"] = z3.Store(self.h["$len"], r.t, self.llen(l))
+        return r
+
+    def list_concat(self, a, b):
+        r = self.alloc("list")
+        na, nb = self.llen(a), self.llen(b)
+        new = self.fresh_elems("cat")
+        j = z3.Const("j!cat", z3.IntSort())
+        ea, eb = self.h["$elem"][a.t], self.h["$elem"][b.t]
+        self.path.assume(z3.ForAll([j], z3.And(z3.Implies(z3.And(j >= 0, j < na), new[j] == ea[j]),
+                                               z3.Implies(z3.And(j >= na, j < na + nb), new[j] == eb[j - na])), patterns=[new[j]]), check=False)
+        self.h["$elem"] = z3.Store(self.h["$elem"], r.t, new)
+        self.h["$len"] = z3.Store(self.h["$len"], r.t, na + nb)
+        return r
+
+    def list_slice(self, base, lo, hi, node=None):
+        n = self.llen(base)
+        a = self.ev.norm_index(lo.t, n) if lo is not None else I(0)
+        b = self.ev.norm_index(hi.t, n) if hi is not None else n
+        r = self.alloc("list")
+        new = self.fresh_elems("slice")
+        j = z3.Const("j!sl", z3.IntSort())
+        old = self.h["$elem"][base.t]
+        ln = z3.If(b >= a, b - a, I(0))
+        self.path.assume(z3.ForAll([j], z3.Implies(z3.And(j >= 0, j < ln), new[j] == old[j + a]), patterns=[new[j]]), check=False)
+        self.h["$elem"] = z3.Store(self.h["$elem"], r.t, new)
+        self.h["$len"] = z3.Store(self.h["$len"], r.t, ln)
+        return r
+
+    def iter_source(self, it: VRef, node):
+        # the list is re-read at every step (Python semantics); the element array is read lazily
+        return self.llen(it), (lambda i: self.elem_read(it, i))
+
+    # ------------------------------------------------------------------ methods
+    def call_method(self, recv: VRef, name, args, kwargs, node, env):
+        if name in ("append", "extend", "remove", "pop", "insert", "copy", "index", "clear") and (
+                recv.cls in ("list", "Scope") or recv.cls is None and self.path.entails_quick(self.is_list_tag(recv.t))):
+            return self.list_method(recv, name, args, node)
+        if name == "get" and recv.cls in ("dict", "ScopeLayer", None):
+            return self.dict_get(recv, self.ev.lift(args[0]), node, default=args[1] if len(args) > 1 else VNone(), soft=True)
+        if name.startswith("__") or True:
+            return self.dunder(recv, name, args, kwargs, node, env)
+
+    def list_method(self, l, name, args, node):
+        args = [self.ev.lift(a) for a in args]
+        if name == "append":
+            self.append(l, args[0], node)
+            return VNone()
+        if name == "copy":
+            return self.list_copy(l, node)
+        if name == "extend":
+            other = args[0]
+            if isinstance(other, VPy) and other.obj == ("emptylist",):
+                return VNone()
+            if isinstance(other, VRef):
+                n, m = self.llen(l), self.llen(other)
+                old, oth = self.h["$elem"][l.t], self.h["$elem"][other.t]
+                new = self.fresh_elems("ext")
+                j = z3.Const("j!ext", z3.IntSort())
+                self.path.assume(z3.ForAll([j], z3.And(z3.Implies(z3.And(j >= 0, j < n), new[j] == old[j]),
+                                                       z3.Implies(z3.And(j >= n, j < n + m), new[j] == oth[j - n])), patterns=[new[j]]), check=False)
+                self.write_list(l, new, n + m, node, "extend")
+                return VNone()
+        if name == "pop":
+            n = self.llen(l)
+            if not args:
+                ok = n > 0
+                self.ctx.oblige(self.path, "index-bounds", f"L{getattr(node, 'lineno', 0)}:pop()", ok, node)
+                self.path.assume(ok, check=False)
+                v = self.elem_read(l, n - 1)
+                self.write_list(l, self.h["$elem"][l.t], n - 1, node, "pop")
+                return v
+            k = self.ev.const_int(args[0], node)
+            if k == 0:
+                ok = n > 0
+                self.ctx.oblige(self.path, "index-bounds", f"L{getattr(node, 'lineno', 0)}:pop(0)", ok, node)
+                self.path.assume(ok, check=False)
+                v = self.elem_read(l, I(0))
+                self.delete_at(l, I(0), node)
+                return v
+        if name == "remove":
+            # first element that is == to the argument; ValueError if there is none
+            item = self.as_ref(args[0], node)
+            k = self.path.fresh("rm", z3.IntSort())
+            j = z3.Const("j!rm", z3.IntSort())
+            e = self.h["$elem"][l.t]
+            self.path.add_axiom(z3.Implies(e[k] == item.t, PYEQ(e[k], item.t)))
+            found = z3.And(k >= 0, k < self.llen(l), PYEQ(e[k], item.t),
+                           z3.ForAll([j], z3.Implies(z3.And(j >= 0, j < k), z3.Not(PYEQ(e[j], item.t))), patterns=[e[j]]))
+            none = z3.ForAll([j], z3.Implies(z3.And(j >= 0, j < self.llen(l)), z3.Not(PYEQ(e[j], item.t))), patterns=[e[j]])
+            # identity implies equality: instantiate for the argument itself
+            c = self.path.choose(2)
+            if c == 0:
+                self.path.assume(found)
+                self.delete_at(l, k, node)
+                self.path.__dict__["last_removed_index"] = k
+                return VNone()
+            self.path.assume(none)
+            raise self.ev.E.Raised("ValueError", node)
+        self._no(node, f"list method {name}")
+
+    def dunder(self, recv: VRef, name, args, kwargs, node, env):
+        """Method call on a heap object: resolved by the static class of the receiver."""
+        cls = recv.cls
+        if cls is None:
+            self._no(node, f"method {name} on a reference of unknown class")
+        target = self.find_method(cls, name)
+        if target is None:
+            self._no(node, f"no method {cls}.{name} found in the repo")
+        mod, fn = target
+        return self.ev.call_repo_function(mod, fn, args, kwargs, node, env, recv=recv)
+
+    CLASS_FILES = {
+        "AttributeSet": "nix_manipulator/expressions/set.py", "Scope": "nix_manipulator/expressions/scope.py",
+        "LetExpression": "nix_manipulator/expressions/let.py", "NixSourceCode": "nix_manipulator/expressions/source_code.py",
+        "Binding": "nix_manipulator/expressions/binding.py", "Identifier": "nix_manipulator/expressions/identifier.py",
+        "NixExpression": "nix_manipulator/expressions/expression.py", "NixPath": "nix_manipulator/expressions/path.py",
+        "Import": "nix_manipulator/expressions/import_expression.py", "RawExpression": "nix_manipulator/expressions/raw.py",
+        "ScopeState": "nix_manipulator/expressions/scope.py", "_AttrpathEntry": "nix_manipulator/expressions/set.py",
+        "Comment": "nix_manipulator/expressions/comment.py", "MultilineComment": "nix_manipulator/expressions/comment.py",
+    }
+
+    def find_method(self, cls, name):
+        rel = self.CLASS_FILES.get(cls)
+        if rel is None:
+            return None
+        mod = load_module(rel)
+        q = f"{cls}.{name}"
+        if q in mod.defs:
+            return mod, mod.defs[q]
+        cnode = mod.defs.get(cls)
+        if cnode is not None:
+            for b in cnode.bases:
+                bn = ast.unparse(b).split("[")[0]
+                if bn in ("TypedExpression",):
+                    bn = "NixExpression"
+                if bn in self.CLASS_FILES and bn != cls:
+                    r = self.find_method(bn, name)
+                    if r:
+                        return r
+        return None
+
+    # ------------------------------------------------------------------ dict-like objects with constant keys
+    def dict_get(self, base, key, node, default=None, soft=False):
+        if not (isinstance(key, VStr) and z3.is_string_value(key.t)):
+            if recv_is := isinstance(base, VRef) and base.cls not in (None, "dict", "ScopeLayer"):
+                return self.dunder(base, "__getitem__", [key], {}, node, None)
+            self._no(node, "dict access with non-constant key")
+        k = key.t.as_string()
+        if base.cls not in ("dict", "ScopeLayer") and not soft:
+            return self.dunder(base, "__getitem__", [key], {}, node, None)
+        if k not in self.S.FIELDS:
+            self._no(node, f"dict key {k} not in schema")
+        return self.getattr(base, k, node)
+
+    # ------------------------------------------------------------------ construction
+    def class_fields(self, mod, cls_node):
+        """[(name, default ast | None)] of a dataclass incl. inherited fields (base first)."""
+        out = []
+        for b in cls_node.bases:
+            bn = ast.unparse(b)
+            if bn in ("TypedExpression", "NixExpression"):
+                m2 = load_module("nix_manipulator/expressions/expression.py")
+                out.extend(self.class_fields(m2, m2.defs["NixExpression"]))
+            elif bn in mod.defs and isinstance(mod.defs[bn], ast.ClassDef):
+                out.extend(self.class_fields(mod, mod.defs[bn]))
+            elif bn == "Comment" or bn == "Primitive":
+                rel = self.CLASS_FILES.get(bn, "nix_manipulator/expressions/primitive.py")
+                m2 = load_module(rel)
+                out.extend(self.class_fields(m2, m2.defs[bn]))
+        for st in cls_node.body:
+            if isinstance(st, ast.AnnAssign) and isinstance(st.target, ast.Name):
+                ann = ast.unparse(st.annotation)
+                if ann.startswith("ClassVar"):
+                    continue
+                out = [x for x in out if x[0] != st.target.id]
+                out.append((st.target.id, st.value))
+        return out
+
+    def default_value(self, name, dflt, node):
+        """Value of a dataclass default expression."""
+        if dflt is None:
+            self._no(node, f"missing constructor argument {name}")
+        if isinstance(dflt, ast.Call) and ast.unparse(dflt.func) == "field":
+            kw = {k.arg: k.value for k in dflt.keywords}
+            if "default_factory" in kw:
+                fac = ast.unparse(kw["default_factory"])
+                if fac == "list":
+                    return self.new_list([])
+                if fac == "Scope":
+                    return self.new_list([], cls="Scope")
+                if fac == "ScopeState":
+                    return self.construct_by_name("ScopeState", {}, node)
+                self._no(node, f"default factory {fac}")
+            if "default" in kw:
+                return self.ev.pure_eval().ev(kw["default"], self.ev.E.Env(module=None))
+            self._no(node, "field() without default")
+        return self.ev.pure_eval().ev(dflt, self.ev.E.Env(module=None))
+
+    def construct_by_name(self, cls, kwargs, node):
+        rel = self.CLASS_FILES.get(cls)
+        mod = load_module(rel)
+        return self.construct(mod, mod.defs[cls], [], kwargs, node, None)
+
+    def construct(self, mod, cls_node, args, kwargs, node, env):
+        name = cls_node.name
+        if name not in self.S.CLASSES:
+            self._no(node, f"construction of unmodelled class {name}")
+        if name == "Scope":
+            items = self.ev.lift(args[0]) if args else None
+            r = self.new_list([], cls="Scope")
+            if isinstance(items, VRef):
+                self.h["$elem"] = z3.Store(self.h["$elem"], r.t, self.h["$elem"][items.t])
+                self.h["$len"] = z3.Store(self.h["$len"], r.t, self.llen(items))
+            elif items is not None and not (isinstance(items, VTuple) and not items.items) and not (isinstance(items, VPy) and items.obj == ("emptylist",)):
+                self._no(node, "Scope(...) from unsupported iterable")
+            owner = kwargs.get("owner")
+            self.h["owner"] = z3.Store(self.h["owner"], r.t, self.as_ref(self.ev.lift(owner)).t if owner is not None else I(0))
+            return r
+        fields = self.class_fields(mod, cls_node)
+        is_dc = any("dataclass" in ast.unparse(d) for d in cls_node.decorator_list)
+        if not is_dc:
+            self._no(node, f"constructor of non-dataclass {name}")
+        kw_only = any("kw_only=True" in ast.unparse(d) for d in cls_node.decorator_list)
+        obj = self.alloc(name)
+        pos = [f for f, _ in fields if f not in ("before", "after", "scope", "scope_state")]
+        given = dict(kwargs)
+        for i, a in enumerate(args):
+            if i >= len(pos):
+                self._no(node, "too many positional arguments")
+            given[pos[i]] = a
+        for fname, dflt in fields:
+            if fname not in self.S.FIELDS:
+                if fname in given:
+                    self._no(node, f"field {fname} of {name} not in the heap schema")
+                continue
+            v = given[fname] if fname in given else self.default_value(fname, dflt, node)
+            self.h[fname] = z3.Store(self.h[fname], obj.t, self.to_field(fname, v, node))
+        if name == "_AttrpathEntry" and "segments" in given:
+            seg = self.ev.lift(given["segments"])
+            if isinstance(seg, VTuple) and seg.items:
+                self.h["seg0"] = z3.Store(self.h["seg0"], obj.t, self.ev.lift(seg.items[0]).t)
+            elif isinstance(seg, VSeq):
+                self.h["seg0"] = z3.Store(self.h["seg0"], obj.t, seg.t[0])
+        # NixExpression.__post_init__: scope.owner = self for Scope instances (the only case modelled)
+        if name in self.S.EXPRESSIONS and "scope" in dict(fields):
+            sc = self.h["scope"][obj.t]
+            self.h["owner"] = z3.Store(self.h["owner"], sc, obj.t) if "scope" not in given else self.h["owner"]
+            if "scope" in given:
+                self.ctx.assumptions_used.add("NixExpression.__post_init__ with an explicit scope argument: owner re-pointing not modelled")
+        self.ctx.assumptions_used.add(f"dataclass construction of {name}: __post_init__ coercions (dict -> AttributeSet, scope normalisation) are not modelled; arguments are assumed already normalised")
+        return obj
+
+    # ------------------------------------------------------------------ modular calls: frames
     def havoc_frame(self, c, cenv, sub):
-        pass
+        if not getattr(c, "modifies", None) and not getattr(c, "allocates", False):
+            return
+        self.init_path()
+        locs = self.eval_locations(c.modifies, cenv, None)
+        tagname = f"hv:{c.name}"
+        for r, f in locs:
+            if not self.ev.pure:
+                # the callee's frame must lie within ours
+                self.check_write(r, f, None)
+            if f == "$list":
+                self.h["$elem"] = z3.Store(self.h["$elem"], r, self.path.fresh(tagname + ".elem", ELEM_SORT))
+                nl = self.path.fresh(tagname + ".len", z3.IntSort())
+                self.path.assume(nl >= 0, check=False)
+                self.h["$len"] = z3.Store(self.h["$len"], r, nl)
+            elif f in self.S.FIELDS:
+                self.h[f] = z3.Store(self.h[f], r, self.path.fresh(tagname + "." + f, field_sort(self.S.FIELDS[f])))
+        if getattr(c, "allocates", True):
+            na = self.path.fresh(tagname + ".alloc", z3.IntSort())
+            self.path.assume(na >= self.h["$alloc"], check=False)
+            self.h["$alloc"] = na
+
+    def havoc_for_loop(self, lc, env, tag):
+        if not self.path.heap:
+            return
+        if not lc.modifies:
+            return
+        locs = self.eval_locations(lc.modifies, env, None)
+        for r, f in locs:
+            if f == "$list":
+                self.h["$elem"] = z3.Store(self.h["$elem"], r, self.path.fresh(f"loop{tag}.elem", ELEM_SORT))
+                nl = self.path.fresh(f"loop{tag}.len", z3.IntSort())
+                self.path.assume(nl >= 0, check=False)
+                self.h["$len"] = z3.Store(self.h["$len"], r, nl)
+            elif f in self.S.FIELDS:
+                self.h[f] = z3.Store(self.h[f], r, self.path.fresh(f"loop{tag}.{f}", field_sort(self.S.FIELDS[f])))
+        na = self.path.fresh(f"loop{tag}.alloc", z3.IntSort())
+        self.path.assume(na >= self.h["$alloc"], check=False)
+        self.h["$alloc"] = na
 
     def check_frame_at_exit(self, contract, penv, fn, exceptional=None):
         pass
 
-    def __getattr__(self, name):
-        def f(*a, **k):
-            node = None
-            for x in a:
-                if hasattr(x, "lineno"):
-                    node = x
-            self._no(node, name)
+    # ------------------------------------------------------------------ misc
+    def call_getattr(self, name, args, node):
+        obj = args[0]
+        key = self.ev.lift(args[1])
+        if isinstance(obj, VRef) and isinstance(key, VStr) and z3.is_string_value(key.t):
+            k = key.t.as_string()
+            if name == "hasattr":
+                self._no(node, "hasattr on heap object")
+            if k in self.S.FIELDS:
+                return self.getattr(obj, k, node)
+        self._no(node, f"{name}() form")
 
-        return f
+    def exec_with(self, st, env):
+        self._no(st, "with statement")
+
+    def idset_contains(self, container, item):
+        members = container.obj[1]
+        item = self.ev.lift(item)
+        if not members:
+            return z3.BoolVal(False)
+        return z3.Or(*[item.t == m for m in members])
+
+    def idset_method(self, recv, name, args, node):
+        self._no(node, "set mutation (rebind needed)")
+
+    def call_classattr(self, o, args, kwargs, node, env):
+        self._no(node, f"class attribute call {o[3]}")
